@@ -51,6 +51,9 @@ func loadProg(dir, goos, goarch string, patterns []string, minPkgs int) (*Prog, 
 		Env:   env,
 		Tests: false,
 	}
+	if loadOverlay != nil && !strings.Contains(dir, "/fixtures") {
+		cfg.Overlay = loadOverlay
+	}
 	pkgs, err := packages.Load(cfg, patterns...)
 	if err != nil {
 		return nil, fmt.Errorf("packages.Load: %v", err)
